@@ -78,8 +78,8 @@ def run(tier, seed):
                 chk.violation("C36: request for an unencodable name neither failed nor reported an error", {"scenario": sc, "actual": o})
             continue
         if not o["ret"] or not pk:
-            if res["k"] == "first" and not res["names"][0] and not pk:
-                continue        # the root name: refusing it is acceptable
+            if res["k"] == "first" and not pk and (not res["names"][0] or res.get("mayfail")):
+                continue        # the root name / an over-long search candidate: refusing the request is acceptable
             chk.violation("C36: request for a valid name failed / nothing transmitted (%r)" % text_of(s["name"])[:40],
                           {"scenario": sc, "prediction": res, "actual": o})
             continue
